@@ -59,6 +59,18 @@ func TestC08(t *testing.T) {
 					scout.OnSample(x.start, x.rtt, x.inf, x.drop)
 				}
 			}
+			// Gradient2 with a constant-RTT history: the long-term average equals that RTT exactly; the pair is that very RTT against a slightly higher one
+			g2const := int64(0)
+			if kind == 3 && g2k == 0 && cfg.Wrapper == 0 && r.Bool(15) {
+				g2const = r.Pick(1_000_000, 50_000, 7_777_777)
+				n = 0
+				for i := 0; i < 12+r.Intn(40) && !scout.Dead; i++ {
+					scout.Now += 1000
+					x := sm{scout.Now, g2const, int64(scout.EstFloat()) + 1, false}
+					prefix = append(prefix, x)
+					scout.OnSample(x.start, x.rtt, x.inf, x.drop)
+				}
+			}
 			for i := 0; i < n && !scout.Dead; i++ {
 				a, b, c, d := st.Next()
 				prefix = append(prefix, sm{a, b, c, d})
@@ -86,7 +98,7 @@ func TestC08(t *testing.T) {
 				base = st.base
 			}
 			lo := base + r.Pick(0, 0, 1, base/10, base/2, base, 3*base)
-			hi := lo + r.Pick(1, 1, 2, base/100+1, base/10+1, base, 5*base)
+			hi := lo + r.Pick(1, 1, 2, base/100+1, base/10+1, base, 5*base, 150*base, 1000*base)
 			directed := false
 			if r.Bool(30) || forceDir { // aim around Vegas' queue thresholds
 				est := scout.EstFloat()
@@ -154,7 +166,10 @@ func TestC08(t *testing.T) {
 			if kind == 2 && r.Bool(60) {
 				inf, drop = int64(scout.EstFloat())+1, false
 			}
-			if kind == 3 && g2k == 0 && r.Bool(12) {
+			if g2const > 0 {
+				lo, hi = g2const, g2const+r.Pick(1, 2, g2const/100, g2const/3)
+				inf, drop = int64(scout.EstFloat())+1, false
+			} else if kind == 3 && g2k == 0 && r.Bool(12) {
 				// a completion below the clock's resolution (RTT 0) against a small positive RTT
 				lo, hi = 0, r.Pick(1, 1000, base/2+1, base)
 				inf, drop = int64(scout.EstFloat())+1, false
